@@ -35,7 +35,7 @@ Spec == Init /\ [][Next]_vars
 InvAll == LET D == Derive(S) IN
           /\ StructureOKD(S, D)                     \* C05
           /\ SpaceOKD(S, D) /\ UsedFlagsOK(S)       \* C06
-          /\ FitsOKD(S, D)                          \* C09
+          /\ FitsOKD(S, D) /\ PadOKD(S, D)           \* C09
           /\ AbsMapD(S, D) = mem                    \* C01 / C08: the files hold the ideal map
 InvStructure == StructureOK(S)                      \* C05
 InvSpace     == SpaceOK(S) /\ UsedFlagsOK(S)        \* C06
